@@ -712,6 +712,10 @@ impl ZmtpEngine {
       };
 
       self.last_activity_time = Instant::now();
+      // Any inbound frame proves the peer is alive, so an outstanding PING stops counting
+      // towards HEARTBEAT_TIMEOUT (libzmq likewise cancels its timeout timer on any input);
+      // a fresh PING is sent after the next idle interval.
+      self.waiting_for_pong = false;
 
       if msg.is_command() {
         // ZMTP/2.0 has no COMMAND frames; receiving one is a protocol violation.
